@@ -102,12 +102,14 @@ CHECKS = {
                   "dissection have no panic result for any input. Tied to the code by every length 0..80 x first byte x receiver state plus "
                   "mutations of genuine datagrams, run on the real node (catch_unwind, state dump equality) and the model.",
              technique="Coq proof (case analysis, induction over datagram sequences) + executed correspondence with state-dump oracle", ref="5 (C08)"),
- "C09": dict(text="Theorems C09_* (Properties/C09.v): forged datagrams leave no trace; a replayed genuine handshake message from an established "
-                  "peer's address leaves the peer entry, routes and own addresses unchanged (after the fix of F8) and reaping the pending object it "
-                  "creates never touches peers or routes; replayed data dies by the C03 window, a re-delivered rotation message changes nothing. "
-                  "PARTIAL: the end-to-end 'payload keeps flowing' statement is decided by the correspondence (every captured datagram re-injected at "
-                  "several offsets from 3 source choices, then a 400 s probe phase on the real nodes vs the model).",
-             technique="Coq proof (node step case analysis + C03/C07 invariants) + executed correspondence with re-injection schedules", ref="5 (C09)"),
+ "C09": dict(text="Theorem C09_established_peer_survives (Properties/C09.v): for every node state, every source address and EVERY wire value, each "
+                  "established peer is still a peer after the datagram is handled, unless the datagram opened (genuine seal under the connection "
+                  "key, admitted by the replay window - C02/C03) as a CLOSE message of that very peer. Plus: forged datagrams leave no trace; a "
+                  "replayed handshake message from an established peer's address leaves peer, routes and own addresses unchanged (after F8); "
+                  "reaping pending objects never touches peers or routes; replayed data dies by the window; re-delivered rotation messages change "
+                  "nothing. PARTIAL: the end-to-end 'payload keeps flowing' statement is decided by the correspondence (every captured datagram "
+                  "re-injected at several offsets from 3 source choices, then a 400 s probe phase on the real nodes vs the model).",
+             technique="Coq proof (node step case analysis over all wire values + C03/C07 invariants) + executed correspondence with re-injection schedules", ref="5 (C09)"),
  "C10": dict(text="Theorems C10_* (Properties/C10.v) for every node state and input: an interface read causes only datagrams, each to an established "
                   "peer; a DATA message from a peer causes at most one interface write of exactly its body and no datagram (no relaying); unknown "
                   "destination in router mode is dropped and counted; unverifiable datagrams cause nothing; sealed bodies arrive byte-identical. "
